@@ -19,10 +19,10 @@ GAdversary ==
   \/ \E j \in 0..(N + K), k \in InjKinds : Inject(j, k) /\ Log([a |-> "inject", j |-> j, k |-> k])
 
 GNext == \/ GAdversary
-         \/ (Release \/ Recv) /\ UNCHANGED h
+         \/ (Release \/ Recv \/ ReadAgain) /\ UNCHANGED h
 
-Case == [n |-> N, wire |-> wire, acts |-> h,
-         expP |-> [clean |-> CleanPrefix, realerr |-> Tampered],
+Case == [n |-> N, wire |-> wire, acts |-> h, post |-> MaxPost,
+         expP |-> [clean |-> CleanPrefix, realerr |-> Tampered, after |-> Len(delivered) - atErr],
          expM |-> [deliver |-> Len(delivered), err |-> err]]
-Emit == phase = "done" => PrintT(ToJson(Case))
+Emit == (phase = "done" /\ post = MaxPost) => PrintT(ToJson(Case))
 ========================================================================
